@@ -206,17 +206,21 @@ Definition rel_effects (c : config) (diff : bool) (st : stage) : list fs_op :=
         ([Mkdirs [s_mocks; s_endpoints]]
          ++ map (fun t => Write [s_mocks; s_endpoints; s_mock_ ++ t ++ s_dot_py] 0) (tags c)
          ++ [Write [s_mocks; s_endpoints; s_init] 0; Write [s_mocks; s_mock_client] 0; Write [s_mocks; s_init] 0])
-  | RichInit =>
-      if diff then [] else match core_pkg c with Some _ => [Write (o ++ [s_init]) 0] | None => [] end
+  | RichInit =>   (* _write_client_init: in both paths when a core package was given *)
+      match core_pkg c with Some _ => [Write (o ++ [s_init]) 0] | None => [] end
   end.
 
 (* absolute operations: the relative ones rebased.  Post-processing (ruff, run with --no-cache) rewrites
    listed files in place and creates nothing. *)
 Definition effects (c : config) (diff : bool) (st : stage) : list fs_op :=
-  map (rebase (if diff then tmp c else root c)) (rel_effects c diff st).
+  map (rebase (if diff then tmp c else root c)) (rel_effects c diff st)
+  (* diff path, before ExceptionsEmitter.emit is entered: the registry of the EXISTING core is copied into
+     the temporary core directory (shutil.copy when it exists; the real file is only read) *)
+  ++ (if stage_eqb st Setup && diff
+      then [Stash (core_dir c ++ [s_registry]); Unstash (tmp c ++ rel_core c ++ [s_registry])] else []).
 
 Definition stages (diff : bool) (p : bool) : list stage :=
-  if diff then [Load; Parse; Setup; Exceptions; Core; Models; Endpoints; Client; Mocks]
+  if diff then [Load; Parse; Setup; Exceptions; Core; Models; Endpoints; Client; Mocks; RichInit]
                ++ (if p then [Post] else []) ++ [Diff]
   else [Load; Parse; Setup; Exceptions; Core; Core2; Models; Endpoints; Endpoints2; Client; Mocks; RichInit]
        ++ (if p then [Post] else []).
